@@ -52,3 +52,51 @@ def revert_overlay(repo, commit):
         return {rel: open(os.path.join(tmp, rel), encoding='utf-8').read() for rel in files if rel.endswith('.py') and rel.startswith('asn1tools/')}
     finally:
         shutil.rmtree(tmp, ignore_errors=True)
+
+
+def seed_entries(prop):
+    """[(seed id, patch path, expected to be reported by this property's check)] for the confirmed seeded regressions of this property"""
+    import json
+    d = os.path.join(core.VERIF, 'seeded')
+    out = []
+    if not os.path.isdir(d):
+        return out
+    for sid in sorted(os.listdir(d)):
+        mp = os.path.join(d, sid, 'meta.json')
+        pp = os.path.join(d, sid, 'patch.diff')
+        if not (os.path.exists(mp) and os.path.exists(pp)):
+            continue
+        try:
+            m = json.load(open(mp))
+        except ValueError:
+            continue
+        if m.get('breaks_property', m.get('property', sid[:3])) != prop:
+            continue
+        out.append((sid, pp, bool(m.get('caught_by_own_property_check'))))
+    return out
+
+
+def patch_overlay(repo, patch_path):
+    """{rel: text} of the files a seeded patch touches with the patch applied on top of the *current* working tree (scratch copy outside
+    /repo and /verif), or None when it does not apply."""
+    try:
+        patch = open(patch_path, 'rb').read()
+    except OSError:
+        return None
+    files = re.findall(r'^diff --git a/(\S+) b/', patch.decode('utf-8', 'replace'), flags=re.M)
+    if not files:
+        return None
+    tmp = tempfile.mkdtemp(prefix='sa_seed_')
+    try:
+        for rel in files:
+            src = os.path.join(repo, rel)
+            dst = os.path.join(tmp, rel)
+            os.makedirs(os.path.dirname(dst), exist_ok=True)
+            if os.path.exists(src):
+                shutil.copy(src, dst)
+        p = subprocess.run(['patch', '-p1', '-s', '-f', '--no-backup-if-mismatch', '-d', tmp], input=patch, stdout=subprocess.PIPE, stderr=subprocess.STDOUT)
+        if p.returncode != 0:
+            return None
+        return {rel: open(os.path.join(tmp, rel), encoding='utf-8').read() for rel in files if rel.endswith('.py') and rel.startswith('asn1tools/')}
+    finally:
+        shutil.rmtree(tmp, ignore_errors=True)
